@@ -72,7 +72,8 @@ class Engine(EngineBase, ExprMixin, StmtMixin, CallMixin, PreludeMixin):
         entry_env = dict(env)
         entry_env.update(fr.closure)
         fr.old = ({}, entry_env)
-        entry_pc_len = len(st.pc)
+        self.frame_ctx = (c, mod, cname, entry_env)
+        self._allowed_cache = None
         outs = self.ex(node.body, st, fr)
         self.stats['paths'] += len(outs)
         for s, oc in outs:
@@ -99,7 +100,7 @@ class Engine(EngineBase, ExprMixin, StmtMixin, CallMixin, PreludeMixin):
         return len(outs)
 
     def check_post(self, st, fr, c, mod, cname, entry_env, res, ensures, label):
-        if 'return' in c.types and res is not None and not isinstance(res, ExcVal):
+        if 'return' in c.types and res is not None and not isinstance(res, (ExcVal, LocalDict)):
             try:
                 res2 = self.coerce_to(st, res, self.reg.kind(c.types['return']))
                 if not isinstance(res, LocalDict):
@@ -116,11 +117,14 @@ class Engine(EngineBase, ExprMixin, StmtMixin, CallMixin, PreludeMixin):
         finally:
             st.env = saved
 
-    def check_frame(self, st, fr, c, mod, cname, entry_env):
-        """Everything outside `modifies` (on objects alive at entry) is unchanged."""
-        allowed = {}      # 'Class.field' -> list of predicates r -> z3 Bool
+    def frame_allowed(self, st):
+        """'Class.field' -> list of predicates (r -> z3 Bool) from the verified function's modifies."""
+        c, mod, cname, entry_env = self.frame_ctx
+        if getattr(self, '_allowed_cache', None) is not None:
+            return self._allowed_cache
+        allowed = {}
         sf = self.spec_frame(mod, c.qual, cname, entry_env)
-        entry = St(st.pc, {}, {})
+        entry = St((), {}, {})
         for m in c.modifies:
             if m == 'alloc':
                 continue
@@ -136,20 +140,45 @@ class Engine(EngineBase, ExprMixin, StmtMixin, CallMixin, PreludeMixin):
                 base = self.ev1(node.value, entry, sf)
                 dc, kind = self.field_decl(base.kind.cls, node.attr)
                 allowed.setdefault('%s.%s' % (dc, node.attr), []).append(lambda r, b=base.z: r == b)
-        st.assume(*entry.pc[len(st.pc):])
+        self._allowed_cache = allowed
+        self._allowed_facts = entry.pc
+        return allowed
+
+    def frame_formula(self, st, key, arr):
+        allowed = self.frame_allowed(st)
         alive0 = self.alive_arr({})
+        init = self.H.initial(key, arr.sort().range())
+        r = z3.Int(fresh_name('fr'))
+        preds = [p(r) for p in allowed.get(key[0], [])]
+        guard = z3.And(z3.Select(alive0, r), *[z3.Not(p) for p in preds])
+        return z3.ForAll([r], z3.Implies(guard, z3.Select(arr, r) == z3.Select(init, r)),
+                         patterns=[z3.Select(arr, r)])
+
+    def check_frame(self, st, fr, c, mod, cname, entry_env):
+        """Everything outside `modifies` (on objects alive at entry) is unchanged."""
+        self.frame_allowed(st)
+        st.assume(*self._allowed_facts)
         for key, arr in st.heap.items():
             if key == ALIVE:
                 continue
             init = self.H.initial(key, arr.sort().range())
             if arr.eq(init):
                 continue
-            r = z3.Int(fresh_name('fr'))
-            preds = [p(r) for p in allowed.get(key[0], [])]
-            guard = z3.And(z3.Select(alive0, r), *[z3.Not(p) for p in preds])
-            goal = z3.ForAll([r], z3.Implies(guard, z3.Select(arr, r) == z3.Select(init, r)))
-            self.oblige(st, '%s#frame[%s]' % (c.qual, key[0]), goal)
+            self.oblige(st, '%s#frame[%s]' % (c.qual, key[0]), self.frame_formula(st, key, arr))
 
+    def loop_frame(self, st, keys, mode, name=None):
+        """Automatic loop invariant: the function's frame condition holds at every loop head."""
+        if getattr(self, 'frame_ctx', None) is None:
+            return
+        for key in sorted(keys):
+            if key == ALIVE:
+                continue
+            arr = self.H.get(st.heap, key, None)
+            f = self.frame_formula(st, key, arr)
+            if mode == 'assume':
+                st.assume(f)
+            else:
+                self.oblige(st, '%s.frame[%s]' % (name, key[0]), f)
 
 # ---------------------------------------------------------------------- solving
 
@@ -161,7 +190,7 @@ def _solve_one(args):
     ob = _OBS[idx]
     t0 = time.time()
     s = z3.Solver()
-    s.set('timeout', timeout_ms)
+    s.set('timeout', timeout_ms if ob.kind != 'canary' else min(timeout_ms, 3000))
     s.set('random_seed', seed)
     s.add(*ob.pc)
     if ob.kind == 'canary':
@@ -212,26 +241,71 @@ def _ext_one(args):
     return idx, r, who
 
 
-def discharge(obs, timeout_ms=20000, procs=16, seed=0, ext_timeout_s=20):
-    """-> list of result dicts aligned with obs."""
+def _child(idx, timeout_ms, seed, conn):
+    try:
+        res = _solve_one((idx, timeout_ms, seed))
+        conn.send(res)
+    except BaseException as ex:     # noqa
+        try:
+            conn.send((idx, 'error', 0.0, {'error': repr(ex)[:300]}, 'z3'))
+        except Exception:           # noqa
+            pass
+    finally:
+        conn.close()
+        os._exit(0)
+
+
+def discharge(obs, timeout_ms=20000, procs=16, seed=0, ext_timeout_s=20, use_external=True):
+    """Each obligation is solved in its own forked process, hard-killed at timeout + grace.
+    -> list of result dicts aligned with obs."""
     global _OBS
     _OBS = obs
     results = [None] * len(obs)
-    if not obs:
-        return results
     ctx = multiprocessing.get_context('fork')
-    with ctx.Pool(min(procs, max(1, len(obs)))) as pool:
-        todo_ext = []
-        for idx, r, dt, model, extra in pool.imap_unordered(_solve_one, [(i, timeout_ms, seed) for i in range(len(obs))]):
-            backend = extra[0] if isinstance(extra, tuple) else extra
-            results[idx] = {'result': r, 'time': dt, 'model': model, 'backend': backend}
-            if r == 'unknown' and isinstance(extra, tuple) and extra[1] and obs[idx].kind == 'ob':
-                todo_ext.append((idx, extra[1], ext_timeout_s))
-        for idx, r, who in pool.imap_unordered(_ext_one, todo_ext):
-            if r == 'unsat':
-                results[idx]['result'] = 'unsat'
-                results[idx]['backend'] = who
-            elif r == 'sat':
-                results[idx]['result'] = 'sat'
-                results[idx]['backend'] = who
+    pending = list(range(len(obs)))
+    running = {}
+    grace = 5.0
+    ext = []
+    while pending or running:
+        while pending and len(running) < procs:
+            idx = pending.pop(0)
+            pr, pw = ctx.Pipe(duplex=False)
+            p = ctx.Process(target=_child, args=(idx, timeout_ms, seed, pw))
+            p.start()
+            pw.close()
+            running[idx] = (p, pr, time.time())
+        done = []
+        for idx, (p, pr, t0) in running.items():
+            if pr.poll(0):
+                try:
+                    _, r, dt, model, extra = pr.recv()
+                except EOFError:
+                    r, dt, model, extra = 'error', time.time() - t0, None, 'z3'
+                backend = extra[0] if isinstance(extra, tuple) else extra
+                results[idx] = {'result': r, 'time': dt, 'model': model, 'backend': backend}
+                if r == 'unknown' and isinstance(extra, tuple) and extra[1] and obs[idx].kind == 'ob':
+                    ext.append((idx, extra[1]))
+                done.append(idx)
+            elif time.time() - t0 > (timeout_ms if obs[idx].kind != 'canary' else min(timeout_ms, 3000)) / 1000.0 + grace:
+                p.kill()
+                results[idx] = {'result': 'unknown', 'time': time.time() - t0, 'model': None, 'backend': 'z3(killed)'}
+                done.append(idx)
+            elif not p.is_alive() and not pr.poll(0):
+                results[idx] = {'result': 'error', 'time': time.time() - t0, 'model': None, 'backend': 'z3(died)'}
+                done.append(idx)
+        for idx in done:
+            p, pr, _ = running.pop(idx)
+            p.join(timeout=1)
+            if p.is_alive():
+                p.kill()
+            pr.close()
+        if not done:
+            time.sleep(0.01)
+    if use_external and ext:
+        from concurrent.futures import ThreadPoolExecutor
+        with ThreadPoolExecutor(max_workers=procs) as tp:
+            for (idx, _), (r, who) in zip(ext, tp.map(lambda a: _external(a[1], ext_timeout_s), ext)):
+                if r in ('unsat', 'sat'):
+                    results[idx]['result'] = r
+                    results[idx]['backend'] = who
     return results
